@@ -326,6 +326,13 @@ func (e *Env) index(x *EIndex) Val {
 			cell := Select(Select(m, slBase(v.T)), Add(slOff(v.T), i))
 			e.cellRange(cell, et)
 			return termVal(cell, et)
+		case v.T.Sort == SInt && v.Typ != nil && isArrayType(v.Typ):
+			// an array value (or pointer to array): a reference to its row in the element memory
+			at := arrayOf(v.Typ)
+			comp, _ := r.elemComp(at.Elem())
+			cell := Select(Select(r.heapGet(e.state(), comp), v.T), i)
+			e.cellRange(cell, at.Elem())
+			return termVal(cell, at.Elem())
 		case v.T.Sort == SStr:
 			return termVal(app(SInt, "str.at_", v.T, i), types.Typ[types.Uint8])
 		case strings.HasPrefix(v.T.Sort, "(Array "):
@@ -374,6 +381,10 @@ func (e *Env) selector(x *ESel) Val {
 		if _, inline := l.Typ.Underlying().(*types.Struct); inline && l.Kind == LComp {
 			// a struct stored inline: designate it, its fields are selected next
 			return locVal(l, types.NewPointer(l.Typ))
+		}
+		if _, isArr := l.Typ.Underlying().(*types.Array); isArr && l.Kind == LElem {
+			// an array stored inline: its row reference (indexable)
+			return termVal(l.Base, l.Typ)
 		}
 	}
 	return r.load(e.state(), l)
@@ -1020,3 +1031,13 @@ func missingName(err error) bool {
 	m := err.Error()
 	return strings.Contains(m, "no field") || strings.Contains(m, "unknown identifier")
 }
+
+func arrayOf(t types.Type) *types.Array {
+	if p, ok := t.Underlying().(*types.Pointer); ok {
+		t = p.Elem()
+	}
+	a, _ := t.Underlying().(*types.Array)
+	return a
+}
+
+func isArrayType(t types.Type) bool { return arrayOf(t) != nil }
